@@ -2,14 +2,21 @@
 
 A *history* is a list of public calls on ONE DFA instance: accepts_input, count_words_of_length,
 words_of_length (generator objects that are opened, advanced step by step, interleaved with
-other calls and abandoned), iter(dfa) (same), cardinality, len, minimum/maximum_word_length,
-isempty, isfinite, random_word, successors / successor / predecessor, comparisons with another
-DFA (==, <=, >=, <, >, issubset, isdisjoint) and clear_cache().
+other calls and abandoned), iter(dfa) (same), successors / predecessors generator objects (same:
+`SO` opens one, `NX` advances it between other calls and across clear_cache), cardinality, len,
+minimum/maximum_word_length, isempty, isfinite, random_word, successors / successor / predecessor
+as atomic calls (key=None, fresh callables, or ONE callable `rank.get` of a shared dict that is
+re-filled between the calls), minify / to_partial (read the `_get_digraph` memo), complement,
+union, comparisons with another DFA (==, <=, >=, <, >, issubset, isdisjoint) and clear_cache().
 
 Property oracle (independent of the model): every answer of the long-lived instance is compared
 with the answer of the same call on a *fresh copy* (for `next(g)`: a fresh copy on which the same
 kind of generator is opened and advanced the same number of times).  After the history every
 populated cache level is queried once more and compared with a fresh copy.
+
+The NFA half (memo of `_get_lambda_closures`): histories of accepts_input, read_input_stepwise, ==,
+DFA.from_nfa, eliminate_lambda, validate on one NFA object, same fresh-copy oracle, replayed by the
+Lean machine `nstep` (NHISTORY command), memoised closure table compared with a fresh one.
 
 Correspondence: the whole history is replayed by the Lean state machine `step` (HISTORY command);
 answers are compared, the content of every populated level of `_count_cache` / `_word_cache` is
@@ -28,21 +35,28 @@ from automata.fa.dfa import DFA
 from harness import gen
 from harness import dfa_query_lib as L
 from harness.common import guarded as case_guard
-from harness.common import Ctx, InfraError, Toks, call, enc_dfa, enc_word, toks
+from harness.common import Ctx, InfraError, Names, Toks, call, dfa_canon, dfa_plain, enc_dfa, enc_nfa, enc_word, sym_names, toks
 from harness.ops import C14 as S
 
 LEVEL = "proof"
-RULE = ("cases = (valid DFA, history of ≤30 public calls on one instance, incl. live generators advanced between "
-        "other calls, abandoned generators and clear_cache); corpus (mutant killers, short-after-long and "
-        "long-after-short lengths), all histories of length ≤2 (thorough: ≤3) over 15 call kinds on 20 DFAs, then "
-        "random histories on shaped random DFAs (≤6 states); evaluations = calls compared with a fresh copy; a "
-        "history is non-trivial when it contains ≥2 cache-touching calls on a DFA with a non-empty language; "
-        "distinct = distinct (definition, history)")
+RULE = ("cases = (valid DFA, history of ≤30 public calls on one instance, incl. live generators of all three kinds "
+        "(words_of_length, iter, successors/predecessors) advanced between other calls and across clear_cache, abandoned "
+        "generators, minify / to_partial (digraph memo), successor search with key=None / fresh callables / one shared "
+        "callable whose ranking changes between calls); corpus (mutant killers, short-after-long and long-after-short "
+        "lengths, shared-key pairs, generators across clear_cache), all histories of length ≤2 (thorough: ≤3) over 18 "
+        "call groups on 20 DFAs, then random histories on shaped random DFAs (≤6 states); evaluations = calls compared "
+        "with a fresh copy; a history is non-trivial when it contains ≥2 cache-touching calls on a DFA with a "
+        "non-empty language; distinct = distinct (definition, history)")
 ASSUMPTIONS = [
     "lengths k are naturals (negative lengths index the caches from the end and are history-dependent: finding F18)",
     "the DFA definition is immutable (C18); the object stays referenced while it is queried",
-    "queries that never touch the caches (==, <=, issubset, isdisjoint, …) are opaque in the model; their history "
-    "independence is only sampled (compared with a fresh copy), not proved",
+    "queries that never touch the caches (==, <=, issubset, isdisjoint, complement, union, …) are opaque in the model; "
+    "their history independence is only sampled (compared with a fresh copy), not proved; minify / to_partial are "
+    "modelled as far as they touch the instance (the `_get_digraph` memo), the rest of their body is an arbitrary "
+    "function of the definition and the graph object",
+    "a key callable is a pure function at the moment of the call (the model takes its values on the alphabet at that "
+    "moment); NFA half: accepts_input / read_input_stepwise are modelled exactly over the memoised closure table, "
+    "==, DFA.from_nfa, eliminate_lambda only as far as they fetch that table (their answers are sampled against fresh copies)",
 ]
 EXPLANATION = ("Theorem C20_history: for every DFA and every finite history the cached instance `step` returns the "
                "answers of the stateless `stepPure`; this run ties `step` to the code by differential execution of "
@@ -50,11 +64,42 @@ EXPLANATION = ("Theorem C20_history: for every DFA and every finite history the 
 
 NX_FUEL = 60
 MEMO = ["_get_digraph", "isempty", "isfinite", "cardinality", "minimum_word_length", "maximum_word_length"]
-OTHER_OPS = ["eq", "le", "ge", "lt", "gt", "issubset", "issuperset", "isdisjoint"]
+OTHER_OPS = ["eq", "le", "ge", "lt", "gt", "issubset", "issuperset", "isdisjoint",
+             "complement", "complement_keep", "union", "union_keep"]
+# methods that read `_get_digraph()` through the memo: (model query, tag, real call)
+GRAPH_OPS = {"minify": ("MINI", 0), "minify_keep": ("MINI", 1),
+             "to_partial": ("TOP", 0), "to_partial_keep": ("TOP", 1), "to_partial_plain": ("TOP", 2)}
 
 
 # ------------------------------------------------------------------ real execution
+def canon_result(r: DFA, keep_names: bool):
+    """A DFA-valued answer: its reachable part up to isomorphism (+ the state names when the
+    operation promises to retain them)."""
+    c = dfa_canon(dfa_plain(r, Names(sorted(r.states, key=repr)), sym_names(r.input_symbols)))
+    return (c, frozenset(r.states) if keep_names else None)
+
+
+def do_graph_op(x: DFA, op: str):
+    if op == "minify":
+        return canon_result(x.minify(), False)
+    if op == "minify_keep":
+        return canon_result(x.minify(retain_names=True), True)
+    if op == "to_partial":
+        return canon_result(x.to_partial(retain_names=False), False)
+    if op == "to_partial_keep":
+        return canon_result(x.to_partial(retain_names=True), True)
+    return canon_result(x.to_partial(minify=False), True)
+
+
 def do_other(x: DFA, op: str, other: DFA):
+    if op == "complement":
+        return canon_result(x.complement(), False)
+    if op == "complement_keep":
+        return canon_result(x.complement(retain_names=True, minify=False), True)
+    if op == "union":
+        return canon_result(x.union(other), False)
+    if op == "union_keep":
+        return canon_result(x.union(other, retain_names=True, minify=False), True)
     if op == "eq":
         return x == other
     if op == "le":
@@ -81,9 +126,24 @@ def gen_next(g):
         return ("err", type(e).__name__)
 
 
-def succ_kwargs(q):
+def succ_kwargs(q, runner=None):
+    """Keyword arguments of a successor-search call.  keymode "shared": the SAME callable
+    `rank.get` of the runner's one rank dict is passed every time; the dict is re-filled with the
+    ranking of this call just before (a callable whose ranking changes between calls)."""
     p = q["p"]
-    return dict(strict=p["strict"], key=L.real_key(p["key"]), min_length=p["min"], max_length=p["max"])
+    if p.get("keymode") == "shared":
+        runner.rank.clear()
+        runner.rank.update(p["key"])
+        return dict(strict=p["strict"], key=runner.rank_get, min_length=p["min"], max_length=p["max"])
+    return S.kwargs_of(p)
+
+
+def open_succ(x: DFA, p: dict):
+    """A successors generator object (through the predecessors wrapper when p says so); nothing of
+    its body runs before the first next()."""
+    if p["reverse"] and p.get("via_predecessors"):
+        return x.predecessors(p["start"], **S.kwargs_of(p))
+    return x.successors(p["start"], reverse=p["reverse"], **S.kwargs_of(p))
 
 
 class Runner:
@@ -93,8 +153,10 @@ class Runner:
         self.x = d
         self.other = other
         self.gens = []
-        self.kinds = []   # ("words", k) | ("iter",)
+        self.kinds = []   # ("words", k) | ("iter",) | ("succ", p)
         self.nexts = []   # number of next() calls so far per handle
+        self.rank = {}
+        self.rank_get = self.rank.get     # one callable object, reused by every keymode="shared" call
 
     def run(self, q: dict):
         x = self.x
@@ -134,12 +196,19 @@ class Runner:
             return r
         if k == "SU":
             p = q["p"]
-            return S.guarded(lambda: list(itertools.islice(x.successors(p["start"], reverse=p["reverse"], **succ_kwargs(q)), p["n"])))
+            return S.guarded(lambda: list(itertools.islice(x.successors(p["start"], reverse=p["reverse"], **succ_kwargs(q, self)), p["n"])))
         if k == "FI":
             p = q["p"]
             if p["reverse"]:
-                return S.guarded(lambda: x.predecessor(p["start"], **succ_kwargs(q)))
-            return S.guarded(lambda: x.successor(p["start"], **succ_kwargs(q)))
+                return S.guarded(lambda: x.predecessor(p["start"], **succ_kwargs(q, self)))
+            return S.guarded(lambda: x.successor(p["start"], **succ_kwargs(q, self)))
+        if k == "SO":
+            self.gens.append(open_succ(x, q["p"]))
+            self.kinds.append(("succ", q["p"]))
+            self.nexts.append(0)
+            return ("handle", len(self.gens) - 1)
+        if k == "GO":
+            return call(lambda: do_graph_op(x, q["op"]))
         if k == "CLR":
             return call(lambda: x.clear_cache())
         if k == "OT":
@@ -150,14 +219,14 @@ class Runner:
 def fresh_answer(d: DFA, other: DFA, q: dict, kinds, nexts):
     """The same call on a fresh copy (kept referenced while it runs)."""
     c = d.copy()
-    if q["q"] in ("WO", "IO"):
+    if q["q"] in ("WO", "IO", "SO"):
         return None
     if q["q"] == "NX":
         kind = kinds[q["h"]]
-        g = c.words_of_length(kind[1]) if kind[0] == "words" else iter(c)
+        g = c.words_of_length(kind[1]) if kind[0] == "words" else iter(c) if kind[0] == "iter" else open_succ(c, kind[1])
         r = None
         for _ in range(nexts[q["h"]]):
-            r = gen_next(g)
+            r = S.guarded(lambda: gen_next(g))[1]
         return r
     if q["q"] == "RW":
         return L.random_word_recorded(c, q["k"], q["seed"])[0]
@@ -171,9 +240,28 @@ def snapshot(x: DFA, st, sy):
     return ct, wt, memo
 
 
+def digraph_content(x: DFA):
+    """Nodes and edges of the `_get_digraph()` result (one shared mutable networkx object)."""
+    g = x._get_digraph()
+    return sorted(map(repr, g.nodes)), sorted((repr(a), repr(b)) for a, b in g.edges)
+
+
 # ------------------------------------------------------------------ model
-def enc_query(sy, q: dict) -> str:
+def handle_kinds(hist):
+    return [q["q"] for q in hist if q["q"] in ("WO", "IO", "SO")]
+
+
+def enc_query(sy, q: dict, kinds=()) -> str:
     k = q["q"]
+    if k == "NX":
+        is_succ = q["h"] < len(kinds) and kinds[q["h"]] == "SO"
+        return toks("NX", q["h"], S.FUEL if is_succ else NX_FUEL)
+    if k == "SO":
+        p = q["p"]
+        return toks("SO", L.enc_succ_args(sy, p["start"], p["strict"], p["reverse"], p["min"], p["max"], p["key"]))
+    if k == "GO":
+        name, tag = GRAPH_OPS[q["op"]]
+        return toks(name, tag)
     if k == "A":
         return toks("A", enc_word(sy, q["w"]))
     if k in ("C", "WO"):
@@ -236,7 +324,8 @@ def parse_answer(sy, text: str):
 
 
 def model_history(ctx: Ctx, enc: str, sy, hist):
-    line = ctx.driver(L.DRV).ask(toks("HISTORY", enc, len(hist), [enc_query(sy, q) for q in hist]))
+    kinds = handle_kinds(hist)
+    line = ctx.driver(L.DRV).ask(toks("HISTORY", enc, len(hist), [enc_query(sy, q, kinds) for q in hist]))
     out = []
     for part in line.split(" | ") if hist else []:
         ans, snap, same = part.split(" ; ")
@@ -276,14 +365,30 @@ def run_history(ctx: Ctx, d: DFA, other: DFA, hist, origin: str, kmax: int):
     R = Runner(inst, other)
     real, snaps, bad = [], [], []
     touching = 0
+    fresh_graph = None
     for i, q in enumerate(hist):
         a = R.run(q)
         real.append(a)
         snaps.append(snapshot(inst, st, sy))
+        if snaps[-1][2][0]:
+            # MemoOK on the real object: the memoised `_get_digraph()` result is ONE shared mutable
+            # networkx graph; whatever was called so far must have left it equal to a fresh one
+            # (calling the memoised method again only returns the stored object)
+            if fresh_graph is None:
+                fresh_graph = digraph_content(d.copy())
+            got_graph = digraph_content(inst)
+            ctx.stat("digraph_memo:compared_with_fresh")
+            if got_graph != fresh_graph:
+                ctx.corr_diff("HISTORY digraph memo content (mutated shared graph object)",
+                              dict(describe(d, other, hist[: i + 1]), index=i), got_graph, fresh_graph)
         f = fresh_answer(d, other, q, R.kinds, R.nexts)
         ctx.case(None)
         ctx.stat(f"q:{q['q']}")
-        if q["q"] not in ("A", "OT", "WO", "IO"):
+        if q["q"] == "NX":
+            ctx.stat(f"next:{R.kinds[q['h']][0]}")
+        if q["q"] in ("SU", "FI", "SO"):
+            ctx.stat(f"succ_key:{q['p'].get('keymode', 'int')}")
+        if q["q"] not in ("A", "OT", "WO", "IO", "SO"):
             touching += 1
         if f is not None and f != a:
             bad.append(f"call #{i} {show_q(q)} after {i} earlier calls answered {str(a)[:120]}; the same call on a fresh copy answers {str(f)[:120]}")
@@ -355,6 +460,10 @@ def show_q(q: dict) -> str:
         return f"random_word({q['k']}, seed={q['seed']})"
     if k in ("SU", "FI"):
         return f"{'successors' if k == 'SU' else 'successor/predecessor'}({q['p']})"
+    if k == "SO":
+        return f"g=successors({q['p']})"
+    if k == "GO":
+        return f"{q['op']}()"
     if k == "OT":
         return f"{q['op']}(other)"
     return {"CARD": "cardinality()", "LEN": "len()", "MIN": "minimum_word_length()", "MAX": "maximum_word_length()",
@@ -374,10 +483,15 @@ def rand_succ_query(rng, d: DFA, shape, bw, hi, kind):
     else:
         return dict(q="EMPTY")
     S.set_n(rng, d, p, shape)
+    p.pop("split", None)
     if rng.random() < 0.1:
         p["n"] = 0
-    if kind == "FI" and p["reverse"] and p["start"] is None:
-        p["start"] = ""
+    if kind == "SO":
+        p["n"] = 0
+        if p["reverse"] and rng.random() < 0.5:
+            p["via_predecessors"] = True
+    elif rng.random() < 0.4:
+        p["keymode"] = "shared"
     return dict(q=kind, p=p)
 
 
@@ -422,10 +536,27 @@ def rand_history(rng, d: DFA, length: int):
             hist.append(dict(q="FINITE"))
         elif r < 0.86:
             hist.append(dict(q="RW", k=k, seed=rng.randrange(1 << 30)))
-        elif r < 0.90 and can_succ:
-            hist.append(rand_succ_query(rng, d, shape, bw, hi, rng.choice(["SU", "SU", "FI"])))
-        elif r < 0.95:
+        elif r < 0.885 and can_succ:
+            q = rand_succ_query(rng, d, shape, bw, hi, rng.choice(["SU", "SU", "FI"]))
+            hist.append(q)
+            if q["q"] != "EMPTY" and q["p"].get("keymode") == "shared" and rng.random() < 0.6:
+                # the same callable again, after the ranking behind it has changed
+                q2 = rand_succ_query(rng, d, shape, bw, hi, q["q"])
+                if q2["q"] != "EMPTY":
+                    q2["p"]["keymode"] = "shared"
+                    if rng.random() < 0.7:
+                        q2["p"]["reverse"] = q["p"]["reverse"] if S.in_domain(d, dict(q2["p"], reverse=q["p"]["reverse"]), shape) else q2["p"]["reverse"]
+                    hist.append(q2)
+        elif r < 0.91 and can_succ:
+            q = rand_succ_query(rng, d, shape, bw, hi, "SO")
+            if q["q"] == "SO":
+                hist.append(q); live.append(handles); handles += 1
+                if rng.random() < 0.5:
+                    hist.append(dict(q="NX", h=handles - 1))
+        elif r < 0.945:
             hist.append(dict(q="CLR"))
+        elif r < 0.97:
+            hist.append(dict(q="GO", op=rng.choice(sorted(GRAPH_OPS))))
         else:
             hist.append(dict(q="OT", op=rng.choice(OTHER_OPS)))
     return hist[:length], kmax
@@ -447,6 +578,9 @@ MACROS = [
     [dict(q="RW", k=2, seed=7)], [dict(q="CLR")],
     [dict(q="SU", p=dict(start=None, strict=True, key={"a": 0, "b": 1}, reverse=False, min=0, max=2, n=3))],
     [dict(q="FI", p=dict(start="b", strict=False, key={"a": 0, "b": 1}, reverse=True, min=0, max=None, n=1))],
+    [dict(q="SO", p=dict(start=None, strict=True, key={"a": 0, "b": 1}, keymode="none", reverse=False, min=0, max=2, n=0)),
+     "NX", "NX"],
+    [dict(q="GO", op="to_partial")], [dict(q="GO", op="minify_keep")],
 ]
 
 
@@ -459,7 +593,7 @@ def expand_macros(ms):
                 hist.append(dict(q="NX", h=h))
             else:
                 hist.append(dict(q))
-                if q["q"] in ("WO", "IO"):
+                if q["q"] in ("WO", "IO", "SO"):
                     h = handles
                     handles += 1
     return hist
@@ -501,6 +635,36 @@ def corpus():
                 dict(q="WO", k=0), dict(q="NX", h=1), dict(q="NX", h=1), dict(q="FINITE"), dict(q="CARD"), dict(q="LEN")]
     yield DFA.empty_language(ab), [dict(q="IO"), dict(q="NX", h=0), dict(q="MIN"), dict(q="CARD"), dict(q="MIN"),
                                    dict(q="MAX"), dict(q="FINITE"), dict(q="RW", k=0, seed=1), dict(q="NX", h=0)]
+    # one key callable (rank.get of a shared dict) reused after the ranking behind it changed (seed C20_w2m1)
+    kab, kba = {"a": 0, "b": 1}, {"a": 1, "b": 0}
+    sp = lambda key, rev, start, n=8: dict(start=start, strict=True, key=key, keymode="shared", reverse=rev, min=0, max=3, n=n)
+    yield fin, [dict(q="FI", p=sp(kab, False, "")), dict(q="FI", p=sp(kba, False, "")), dict(q="SU", p=sp(kab, False, None)),
+                dict(q="SU", p=sp(kba, False, None)), dict(q="SU", p=sp(kba, True, None)), dict(q="SU", p=sp(kab, True, None)),
+                dict(q="FI", p=sp(kab, True, "bb")), dict(q="CLR"), dict(q="FI", p=sp(kba, True, "bb"))]
+    yield uni, [dict(q="SU", p=sp(kba, False, "a", 5)), dict(q="SU", p=sp(kab, False, "a", 5)), dict(q="FI", p=sp(kba, False, "ab"))]
+    # live successors / predecessors generators across clear_cache, other generators, minify / to_partial
+    so = lambda rev, start, **kw: dict(q="SO", p=dict(dict(start=start, strict=True, key=kab, keymode="none", reverse=rev, min=0, max=None, n=0), **kw))
+    yield fin, [so(False, None), dict(q="NX", h=0), dict(q="CLR"), dict(q="NX", h=0), so(True, "bb", via_predecessors=True),
+                dict(q="NX", h=1), dict(q="GO", op="to_partial"), dict(q="NX", h=0), dict(q="NX", h=1), dict(q="C", k=3),
+                dict(q="NX", h=0), dict(q="NX", h=0), dict(q="NX", h=0), dict(q="NX", h=0), dict(q="NX", h=1), dict(q="NX", h=1)]
+    yield uni, [so(True, "ab"), dict(q="FINITE"), dict(q="NX", h=0), dict(q="NX", h=0), so(False, "b", max=2),
+                dict(q="GO", op="minify"), dict(q="NX", h=1), dict(q="CLR"), dict(q="NX", h=1), dict(q="NX", h=1), dict(q="NX", h=1)]
+    part = DFA(states={0, 1, 2, 3}, input_symbols=ab, transitions={0: {"a": 1, "b": 2}, 1: {"a": 3}, 2: {"a": 2, "b": 2}, 3: {}},
+               initial_state=0, final_states={1, 3}, allow_partial=True)
+    yield part, [dict(q="GO", op="minify"), dict(q="MAX"), dict(q="GO", op="to_partial_plain"), so(True, None), dict(q="NX", h=0),
+                 dict(q="GO", op="minify_keep"), dict(q="NX", h=0), dict(q="NX", h=0), dict(q="GO", op="to_partial_keep"), dict(q="CARD")]
+
+
+def nfa_corpus():
+    from automata.fa.nfa import NFA
+    n = NFA(states={0, 1, 2}, input_symbols={"a", "b"},
+            transitions={0: {"": {1}, "a": {0}}, 1: {"b": {2}, "": {0}}, 2: {"a": {2}, "": {2}}},
+            initial_state=0, final_states={2})
+    other = NFA(states={0, 1}, input_symbols={"a", "b"}, transitions={0: {"a": {0}, "b": {1}}, 1: {"a": {1}}},
+                initial_state=0, final_states={1})
+    yield n, other, [dict(q="EQ"), dict(q="A", w="ab"), dict(q="READ", w="aba"), dict(q="DET"), dict(q="A", w="ba"),
+                     dict(q="ELIM", ws=["", "b", "ab", "ba"]), dict(q="READ", w="bb"), dict(q="A", w="ab"), dict(q="EQ")]
+    yield n, n.copy(), [dict(q="READ", w=""), dict(q="VAL"), dict(q="A", w=""), dict(q="A", w="b#"), dict(q="EQ")]
 
 
 def run(ctx: Ctx):
@@ -510,22 +674,22 @@ def run(ctx: Ctx):
     # ---- bounded-exhaustive: all macro histories of length ≤ L on 20 DFAs
     Lmax = 3 if ctx.thorough() else 2
     dfas = twenty_dfas()
-    for d in dfas:
-        other = dfas[2]
+    for i, d in enumerate(dfas):
+        other = dfas[(2 + 7 * i) % len(dfas)]
         for n in range(1, Lmax + 1):
             for ms in itertools.product(MACROS, repeat=n):
                 hist = expand_macros(ms)
                 ok = True
                 shape = None
                 for q in hist:
-                    if q["q"] in ("SU", "FI"):
+                    if q["q"] in ("SU", "FI", "SO"):
                         shape = shape or L.language_shape(d)
                         ok = ok and S.in_domain(d, q["p"], shape)
                 if ok:
                     run_history(ctx, d, other, hist, "exhaustive", 5)
-    ctx.exhaustive(f"all sequences of ≤{Lmax} call groups out of 15 (count 0/2/4, words 1 exhausted, words 3 one step, "
+    ctx.exhaustive(f"all sequences of ≤{Lmax} call groups out of {len(MACROS)} (count 0/2/4, words 1 exhausted, words 3 one step, "
                    "words 2 unopened, iter two steps, cardinality, min, max, isfinite, random_word, clear_cache, "
-                   "successors, predecessor) on 20 fixed DFAs over {a,b}")
+                   "successors, predecessor, successors generator two steps, to_partial, minify) on 20 fixed DFAs over {a,b}")
     # ---- random histories
     for _ in range(ctx.budget(700, 25000)):
         d, kind = L.shaped_dfa(rng, 6)
@@ -534,13 +698,29 @@ def run(ctx: Ctx):
         ctx.stat(f"kind:{kind}")
         hist, kmax = rand_history(rng, d, rng.choice([5, 10, 20, 30, 30]))
         run_history(ctx, d, other_for(rng, d), hist, "random", kmax)
-    # ---- NFA side: fresh-copy oracle only
-    for _ in range(ctx.budget(250, 6000)):
+    # ---- NFA side (lambda-closure memo): fresh-copy oracle + NHISTORY correspondence
+    for n, other, hist in nfa_corpus():
+        run_nfa_history(ctx, n, other, hist, "corpus")
+    for _ in range(ctx.budget(300, 6000)):
         nfa_history(ctx, rng)
 
 
-# ------------------------------------------------------------------ NFA side (oracle only, no model)
-def nfa_answer(n, other, q):
+# ------------------------------------------------------------------ NFA side (NHISTORY: the lambda-closure memo)
+NFA_VIA = ["EQ", "DET", "ELIM"]     # read `_get_lambda_closures()` through the memo; opaque in the model
+
+
+def nfa_read(n, w, st=None):
+    """read_input_stepwise consumed to its end: (configurations, terminating exception class)."""
+    out = []
+    try:
+        for c in n.read_input_stepwise(w):
+            out.append(sorted(st(q) for q in c) if st else sorted(map(repr, c)))
+        return (out, None)
+    except Exception as e:  # noqa: BLE001
+        return (out, type(e).__name__)
+
+
+def nfa_answer(n, other, q, st=None):
     k = q["q"]
     if k == "A":
         return call(lambda: n.accepts_input(q["w"]))
@@ -551,7 +731,9 @@ def nfa_answer(n, other, q):
     if k == "ELIM":
         return call(lambda: sorted(w for w in q["ws"] if n.eliminate_lambda().accepts_input(w)))
     if k == "READ":
-        return call(lambda: [sorted(map(repr, c)) for c in n.read_input_stepwise(q["w"], ignore_rejection=True)])
+        return ("ok", nfa_read(n, q["w"], st))
+    if k == "VAL":
+        return call(lambda: n.validate())
     raise InfraError(f"unknown NFA query {q}")
 
 
@@ -561,35 +743,109 @@ def L_dfa_sig(d: DFA):
     return [w for w in gen.words_upto(sy, 4 if len(sy) <= 2 else 3) if d.accepts_input(w)]
 
 
-def nfa_history(ctx: Ctx, rng):
-    """The NFA half of the property (cached lambda closures): every answer on a long-lived NFA
-    must equal the answer on a fresh copy.  No Lean model here — sampled only."""
-    n = gen.rand_nfa(rng, 5)
+def nfa_memo(n):
+    name = "_get_lambda_closures"
+    return int(name in n.__dict__ and n.__dict__[name].cache_info().currsize > 0)
+
+
+def enc_nquery(sy, q):
+    k = q["q"]
+    if k == "A":
+        return toks("A", enc_word(sy, q["w"]))
+    if k == "READ":
+        return toks("RD", enc_word(sy, q["w"]))
+    if k in NFA_VIA:
+        return toks("VC", NFA_VIA.index(k))
+    return toks("OT", 0)
+
+
+def parse_nanswer(text: str):
+    t = Toks(text)
+    k = t.next()
+    if k == "bool":
+        return ("ok", bool(t.int()))
+    if k == "exn":
+        return ("err", t.next())
+    if k == "configs":
+        cs = t.many(lambda: sorted(t.ints()))
+        e = t.next()
+        return ("ok", (cs, None if e == "-" else e))
+    if k == "opaque":
+        return ("opaque",)
+    raise InfraError(f"cannot parse NFA model answer {text!r}")
+
+
+def rand_nfa_history(rng, n):
     sy = sorted(n.input_symbols)
-    other = rng.choice([n.copy(), gen.rand_nfa(rng, 4, alphabet=sy)])
-    inst = n.copy()
     hist = []
     for _ in range(rng.choice([4, 8, 12])):
         r = rng.random()
-        if r < 0.5:
-            hist.append(dict(q="A", w=gen.rand_word(rng, sy, 6)))
+        w = gen.rand_word(rng, sy, 6)
+        if rng.random() < 0.05:
+            w += gen.foreign_symbol(n.input_symbols)
+        if r < 0.45:
+            hist.append(dict(q="A", w=w))
         elif r < 0.65:
-            hist.append(dict(q="READ", w=gen.rand_word(rng, sy, 5)))
-        elif r < 0.8:
+            hist.append(dict(q="READ", w=w[:5]))
+        elif r < 0.77:
             hist.append(dict(q="EQ"))
-        elif r < 0.9:
+        elif r < 0.86:
             hist.append(dict(q="DET"))
-        else:
+        elif r < 0.95:
             hist.append(dict(q="ELIM", ws=[gen.rand_word(rng, sy, 5) for _ in range(4)]))
+        else:
+            hist.append(dict(q="VAL"))
+    return hist
+
+
+@case_guard
+def run_nfa_history(ctx: Ctx, n, other, hist, origin: str):
+    """The NFA half of the property (cached lambda closures): every answer on a long-lived NFA must
+    equal the answer on a fresh copy (property, independent of the model) and the answer of the
+    Lean instance machine `nstep` (NHISTORY); the memoised closure table of the real object must
+    stay equal to a fresh one."""
+    from automata.fa.nfa import NFA
+    enc, st, sy = enc_nfa(n)
+    inst = n.copy()
+    real, memos, bad = [], [], []
+    fresh_table = None
     for i, q in enumerate(hist):
-        a = nfa_answer(inst, other, q)
-        f = nfa_answer(n.copy(), other, q)
+        a = nfa_answer(inst, other, q, st)
+        f = nfa_answer(n.copy(), other, q, st)
+        real.append(a)
+        memos.append(nfa_memo(inst))
         ctx.case(None)
         ctx.stat(f"nfa_q:{q['q']}")
         if a != f:
-            what = (f"NFA call #{i} {q} after {i} earlier calls answered {str(a)[:120]}; "
-                    f"a fresh copy answers {str(f)[:120]}")
-            ctx.prop_fail(what, dict(kind="nfa", automaton=repr(n), other=repr(other), history=hist[: i + 1], what=what), None)
+            bad.append((i, f"NFA call #{i} {q} after {i} earlier calls answered {str(a)[:120]}; "
+                           f"a fresh copy answers {str(f)[:120]}"))
+        if memos[-1]:
+            if fresh_table is None:
+                c = n.copy()          # keep the receiver referenced (cached_method holds it weakly)
+                fresh_table = dict(c._get_lambda_closures())
+            if dict(inst._get_lambda_closures()) != fresh_table:
+                ctx.corr_diff("NHISTORY closure memo content", dict(automaton=repr(n), history=hist[: i + 1]),
+                              repr(dict(inst._get_lambda_closures()))[:300], repr(fresh_table)[:300])
+    ctx.case((enc, json.dumps(hist, sort_keys=True)) if len(hist) >= 2 and n.final_states else None)
+    ctx.stat(f"nfa_origin:{origin}")
+    for i, what in bad:
+        ctx.prop_fail(what, dict(kind="nfa", automaton=repr(n), other=repr(other), history=hist[: i + 1], what=what), None)
+    line = ctx.driver(L.DRV).ask(toks("NHISTORY", enc, len(hist), [enc_nquery(sy, q) for q in hist]))
+    for i, (q, a, mm, part) in enumerate(zip(hist, real, memos, line.split(" | ") if hist else [])):
+        ans, memo, same = part.split(" ; ")
+        m = parse_nanswer(ans)
+        if same.strip() != "1":
+            ctx.corr_diff("NHISTORY nstep≠nstepPure (model theorem violated at run time)", dict(automaton=repr(n), history=hist[: i + 1]), a, ans)
+        if m != ("opaque",) and m != a and not bad:
+            ctx.corr_diff("NHISTORY answer", dict(automaton=repr(n), history=hist[: i + 1], index=i), a, m)
+        ctx.stat("nfa_snapshot:memo_flag_equal" if int(memo) == mm else "nfa_snapshot:memo_flag_differs_from_model")
+
+
+def nfa_history(ctx: Ctx, rng):
+    n = gen.rand_nfa(rng, 5)
+    sy = sorted(n.input_symbols)
+    other = rng.choice([n.copy(), gen.rand_nfa(rng, 4, alphabet=sy)])
+    run_nfa_history(ctx, n, other, rand_nfa_history(rng, n), "random")
 
 
 def replay(ctx: Ctx, path: str) -> int:
@@ -600,12 +856,7 @@ def replay(ctx: Ctx, path: str) -> int:
     d = eval(rp["automaton"], env)
     other = eval(rp["other"], env)
     if rp.get("kind") == "nfa":
-        inst = d.copy()
-        for i, q in enumerate(rp["history"]):
-            a = nfa_answer(inst, other, q)
-            f = nfa_answer(d.copy(), other, q)
-            if a != f:
-                ctx.prop_fail(f"NFA call #{i} {q}: {str(a)[:100]} vs fresh {str(f)[:100]}", rp, None)
+        run_nfa_history(ctx, d, other, rp["history"], "replay")
     else:
         run_history(ctx, d, other, rp["history"], "replay", 8)
     if ctx.prop_fails:
